@@ -100,6 +100,7 @@ From PasfmtVerif Require Import Model.Format Proofs.FormatProofs Proofs.FormatTo
 Theorem C08_format_fragment_ends_with_one_newline :
   forall (alnum : bytes -> bool) (cfg : fconfig) (s out : bytes) (segs : list seg)
     (ss : Fragment.stmts),
+  Fragment.wf ss = true ->
   format_model alnum cfg s = inl out ->
   lex_segments s = Some segs ->
   map seg_ty segs = Fragment.render_prog ss ->
